@@ -8,6 +8,7 @@ import (
 	"path/filepath"
 	"strings"
 	"syscall"
+	"time"
 
 	"github.com/pkg/errors"
 	"github.com/tonistiigi/fsutil/types"
@@ -38,6 +39,8 @@ func WriteTar(ctx context.Context, fs FS, w io.Writer) error {
 			name += "/"
 		}
 		hdr.Name = name
+		// archive/tar rounds to the nearest second: an mtime of 1000.7s must be archived as 1000, not 1001
+		hdr.ModTime = hdr.ModTime.Truncate(time.Second)
 
 		hdr.Uid = int(stat.Uid)
 		hdr.Gid = int(stat.Gid)
